@@ -6,7 +6,9 @@ import random
 
 import repo  # noqa: F401
 from common import KnownFindings, MachineryError, Report
+from export_ir import funcs_of
 from objs import export_affine, export_tsl, run_obj_batch
+from pairs import image_of, oracle_at, run_pair_batch
 
 STEPS = [1, 2, 3, 4, 6, 8, 9, 12, 16, 24, 32]
 
@@ -91,6 +93,200 @@ def enum_layouts(tier, rng):
     return out
 
 
+EL = {"i8": 1, "i16": 2, "i32": 4, "i64": 8}
+DYN = -9223372036854775808
+
+
+def gen_static_tsl(rng, max_elems=128):
+    """-> (dims as [[(bound, step)]], shape)"""
+    rank = rng.choice([1, 2, 2, 3])
+    dims, total = [], 1
+    for _ in range(rank):
+        depth = rng.choice([1, 2, 2, 3])
+        bounds = [rng.choice([1, 2, 2, 3, 4]) for _ in range(depth)]
+        while total * _prod(bounds) > max_elems:
+            bounds[rng.randrange(depth)] = 1
+        total *= _prod(bounds)
+        dims.append([(b, rng.choice(STEPS)) for b in bounds])
+    return dims, [_prod([b for b, _ in d]) for d in dims]
+
+
+def tsl_text(dims, dynb=(), dyns=()):
+    parts = []
+    for d, lv in enumerate(dims):
+        bs = ", ".join("?" if (d, j) in dynb else str(b) for j, (b, _) in enumerate(lv))
+        ss = ", ".join("?" if (d, j) in dyns else str(st) for j, (_, st) in enumerate(lv))
+        parts.append(f"[{bs}] -> ({ss})")
+    return ", ".join(parts)
+
+
+def subviewptr_case(rng, name):
+    """pointer of a subview of a TSL buffer at tile-aligned offsets, lowered by the real convert-memref-to-arith"""
+    dims, shape = gen_static_tsl(rng)
+    el = rng.choice(list(EL))
+    lay = tsl_text(dims)
+    srct = f"memref<{'x'.join(str(x) for x in shape)}x{el}, #tsl.tsl<{lay}>>"
+    offspec, static_offs, dyn_args, argdom, args_txt = [], [], [], [[900001]], ""
+    sizes = []
+    for d, lv in enumerate(dims):
+        inner = _prod([b for b, _ in lv[1:]])
+        outer = lv[0][0]
+        aligned = [k * inner for k in range(outer)]
+        if rng.random() < 0.6:
+            dyn_args.append(f"%o{d}")
+            args_txt += f", %o{d} : index"
+            argdom.append(sorted(set(rng.sample(aligned, min(len(aligned), 3)))))
+            offspec.append({"arg": len(argdom), "const": 0})
+            static_offs.append(DYN)
+            sizes.append(inner if max(argdom[-1]) + inner <= shape[d] else 1)
+        else:
+            v = rng.choice(aligned)
+            offspec.append({"arg": 0, "const": v})
+            static_offs.append(v)
+            sizes.append(inner if v + inner <= shape[d] else 1)
+    rest = f"memref<{'x'.join(str(x) for x in sizes)}x{el}, strided<[{', '.join('?' for _ in sizes)}], offset: ?>>"
+    nd = len(dyn_args)
+    text = f"""builtin.module {{
+  func.func public @f(%src : {srct}{args_txt}) {{
+    %sv = "memref.subview"(%src{''.join(', ' + a for a in dyn_args)}) <{{operandSegmentSizes = array<i32: 1, {nd}, 0, 0>, static_offsets = array<i64: {', '.join(str(x) for x in static_offs)}>, static_sizes = array<i64: {', '.join(str(x) for x in sizes)}>, static_strides = array<i64: {', '.join('1' for _ in sizes)}>}}> : ({srct}{', index' * nd}) -> {rest}
+    %p = "memref.extract_aligned_pointer_as_index"(%sv) : ({rest}) -> index
+    "test.op"(%p) : (index) -> ()
+    func.return
+  }}
+}}
+"""
+    L = {"dims": [[{"b": b, "s": st} for b, st in lv] for lv in dims], "off": 0}
+    desc = {"valid": 1, "base": rng.choice([0, 64, 192]), "off": 0, "sizes": shape, "strides": [1] * len(shape), "L": L}
+    return {"name": name, "text": text, "pipe": "convert-memref-to-arith", "argdom": argdom, "descdom": [[desc]],
+            "extra": {"what": "subviewptr", "L": L, "w": EL[el], "offspec": offspec, "inj": 0}, "layout": lay}
+
+
+def boundstep_case(rng, name):
+    """the IR the real get_bound_ops / get_step_ops generate for a (partly dynamic) layout, executed for run-time sizes.
+    Layouts are built from a level order (steps = running product, optional gap), so they are one-to-one; the outermost levels of some
+    dimensions are dynamic: they are the slowest levels, the rightmost dimension fastest (the documented row-major-like convention),
+    so the layout resolved at run time must be one-to-one again."""
+    el = rng.choice(list(EL))
+    in_bytes = rng.random() < 0.5
+    rank = rng.choice([1, 2, 2, 3])
+    bounds = []
+    for _ in range(rank):
+        depth = rng.choice([1, 2, 2, 3])
+        bounds.append([rng.choice([1, 2, 2, 3, 4]) for _ in range(depth)])
+    while _prod([b for lv in bounds for b in lv]) > 48:
+        d = rng.randrange(rank)
+        bounds[d][rng.randrange(len(bounds[d]))] = 1
+    dyn_dims = [d for d in range(rank) if rng.random() < 0.5]
+    static_levels = [(d, j) for d in range(rank) for j in range(len(bounds[d])) if not (j == 0 and d in dyn_dims)]
+    rng.shuffle(static_levels)
+    order = static_levels + [(d, 0) for d in sorted(dyn_dims, reverse=True)]
+    steps, cur = {}, rng.choice([1, 1, 2])
+    for (d, j) in order:
+        steps[(d, j)] = cur
+        cur *= bounds[d][j]
+        if rng.random() < 0.15 and (d, j) in static_levels and (d, j) != static_levels[-1]:
+            cur *= 2     # gap (only below the slowest static level: the dynamic steps continue from max static step * its bound)
+    dims = [[(bounds[d][j], steps[(d, j)]) for j in range(len(bounds[d]))] for d in range(rank)]
+    shape = [_prod(b) for b in bounds]
+    dynb = {(d, 0) for d in dyn_dims}
+    dyns = set(dynb)
+    if dyn_dims and rng.random() < 0.4 and static_levels:
+        dyns.discard((max(dyn_dims), 0))      # the fastest dynamic level may keep its (correct) static step
+    lay = tsl_text(dims, dynb, dyns)
+    shp = "x".join("?" if (d, 0) in dynb else str(shape[d]) for d in range(rank))
+    srct = f"memref<{shp}x{el}, #tsl.tsl<{lay}>>"
+    text = f"""builtin.module {{
+  func.func public @f(%src : {srct}) {{
+    "test.op"() : () -> ()
+    func.return
+  }}
+}}
+"""
+    alts = []
+    for _ in range(4):
+        sizes = []
+        for d in range(rank):
+            inner = _prod(bounds[d][1:])
+            sizes.append(inner * rng.choice([1, 2, 3]) if d in dyn_dims else shape[d])
+        if _prod(sizes) <= 150 and sizes not in alts:
+            alts.append(sizes)
+    if not alts:
+        alts = [[_prod(bounds[d][1:]) if d in dyn_dims else shape[d] for d in range(rank)]]
+    L = {"dims": [[{"b": -1 if (d, j) in dynb else b, "s": -1 if (d, j) in dyns else st} for j, (b, st) in enumerate(lv)]
+                  for d, lv in enumerate(dims)], "off": 0}
+    descdom = [[{"valid": 1, "base": 0, "off": 0, "sizes": sz, "strides": [1] * len(sz), "L": L}] for sz in alts]
+    return {"name": name, "text": text, "pipe": None, "argdom": [[900001]], "descdom": descdom, "in_bytes": in_bytes,
+            "extra": {"what": "boundstep", "L": L, "w": EL[el] if in_bytes else 1, "offspec": [], "inj": 1}, "layout": lay}
+
+
+def build_boundstep(mod, in_bytes):
+    """replace the placeholder test.op by the ops of the real get_bound_ops/get_step_ops and a test.op observing all of them"""
+    from xdsl.dialects import test
+    fn = funcs_of(mod)["f"]
+    blk = fn.body.block
+    src = blk.args[0]
+    attr = src.type.layout
+    bops, bmap = attr.get_bound_ops(src)
+    sops, smap = attr.get_step_ops(bmap, src, in_bytes)
+    keys = [(d, j) for d, ts in enumerate(attr.data.tstrides) for j in range(ts.depth())]
+    obs = test.TestOp(operands=[bmap[k].results[0] for k in keys] + [smap[k].results[0] for k in keys])
+    old = blk.first_op
+    blk.insert_ops_before([*bops, *sops, obs], old)
+    blk.erase_op(old)
+    mod.verify()
+
+
+def run_ir_part(pid, tier, seed, rep):
+    rng = random.Random(seed * 31 + 7)
+    n = 300 if tier == "quick" else 6000
+    cases = []
+    for k in range(n):
+        c = subviewptr_case(rng, f"subviewptr:{seed}:{k}") if k % 2 == 0 else boundstep_case(rng, f"boundstep:{seed}:{k}")
+        try:
+            m = repo.parse(c["text"])
+            m.verify()
+        except Exception as e:
+            raise MachineryError(f"generator produced invalid input {c['name']}: {e}\n{c['text']}")
+        try:
+            if c["pipe"]:
+                repo.run_pipeline(m, c["pipe"])
+            else:
+                build_boundstep(m, c["in_bytes"])
+        except Exception as e:
+            rep.evaluations += 1
+            rep.violation(c["name"], f"{c['pipe'] or 'get_bound_ops/get_step_ops'} raised {type(e).__name__}: {str(e)[:200]} for {c['layout']}",
+                          {"source": c["text"]})
+            continue
+        fn = funcs_of(m)["f"]
+        if c["pipe"] and any(o.name == "memref.extract_aligned_pointer_as_index" and getattr(o.operands[0].owner, "name", "") == "memref.subview" for o in fn.walk()):
+            rep.refused += 1     # the pass left the pointer extraction alone
+            continue
+        img = image_of(fn)
+        trivial = {"name": "f", "nv": 1, "ops": [dict(img["ops"][-1], a=[], r=[])], "args": [1], "ty": ["m"], "w": [0], "msp": [""],
+                   "sacc": [""], "claims": [], "thr": 1, "logsetup": 0, "dma": 0, "memtop": 0, "srctop": 0, "allocsite": 0, "track": 0}
+        cases.append({"name": c["name"], "A": trivial, "B": img, "argdom": c["argdom"], "opqdom": [[0]], "descdom": c["descdom"],
+                      "extra": c["extra"], "text": c["text"], "after": str(fn), "layout": c["layout"]})
+    CH = 400
+    for lo in range(0, len(cases), CH):
+        chunk = cases[lo:lo + CH]
+        r, per = run_pair_batch(pid, "tslops", chunk, tag=f"ir{lo}")
+        rep.add_tlc(r)
+        for tid, vs in per.items():
+            c = chunk[tid - 1]
+            rep.evaluations += len(vs)
+            rep.traces += 1
+            rep.nontrivial.add(c["name"].split(":")[0] + c["layout"])
+            if sum(1 for x in rep.samples if "after" in x) < 1:
+                rep.samples.append({"case": c["name"], "source": c["text"], "after": c["after"][:2000]})
+            bad = [v for v in vs if v[1] != "ok"]
+            if bad:
+                oi, verdict, _, _ = sorted(bad)[0]
+                o = oracle_at(c, oi)
+                rep.violation(c["name"], f"clause {verdict} fails for layout {c['layout']} offsets/sizes {o['args'][1:]} {o['desc'][0]['sizes']} "
+                              f"({len(bad)}/{len(vs)} run-time inputs)", {"source": c["text"], "after": c["after"], "clause": verdict, "oracle": o})
+    rep.extra["ir_cases"] = len(cases)
+
+
 def _prod(xs):
     p = 1
     for x in xs:
@@ -115,7 +311,9 @@ def run(pid: str, tier: str, seed: int, selftest=False, replay=None) -> int:
     rep.rule = ("layouts: exhaustive rank-1 depth<=3 bounds 1..3 small steps (sampled in quick), random rank<=4 depth<=3 with offsets/unit bounds/"
                 "repeated steps, dynamic outermost entries; each view exported from the real code (get_affine_map, all_values, self_overlaps, "
                 "is_dense, canonicalize, print->parse, from_strides, largest_common_contiguous_block) is compared by TLC with Layout.tla on "
-                "every index of the box; non-trivial = distinct layout text")
+                "every index of the box; IR views: the ops of the real get_bound_ops/get_step_ops (static and dynamic outermost entries, in elements and "
+                "in bytes) and the subview pointer arithmetic of the real convert-memref-to-arith are executed on IRMachine for run-time sizes / "
+                "tile-aligned offsets and compared with Layout.tla (contract tslops); non-trivial = distinct layout text")
     CH = 1500
     for lo in range(0, len(cases), CH):
         chunk = cases[lo:lo + CH]
@@ -130,4 +328,5 @@ def run(pid: str, tier: str, seed: int, selftest=False, replay=None) -> int:
                 rep.samples.append({k: c[k] for k in ("text", "L", "canon", "kind")})
             if v != "ok":
                 rep.violation(f"layout:{c['text']}", f"clause {v} fails for layout {c['text']}", {"case": c, "clause": v})
+    run_ir_part(pid, tier, seed, rep)
     return rep.finish(known)
